@@ -160,12 +160,52 @@ def real_fw_hex_to_int(text, count):
     return "ok " + (",".join(map(str, ws)) or "-")
 
 
+class Oversized(bytes):
+    """marker: load_fw produced (or tried to allocate) an image far larger than anything the file encodes"""
+
+
 def real_load_fw(text, workdir):
+    """ota.load_fw on a file with this text, with the address space capped for the duration of the call: a file
+    of a few hundred bytes must not make the loader allocate gigabytes (records at high addresses are legal)."""
+    import resource
     from mysensors import ota
     path = os.path.join(workdir, "fw.hex")
     with open(path, "w", encoding="utf-8", newline="") as fh:
         fh.write(text)
-    return ota.load_fw(path)
+    soft, hard = resource.getrlimit(resource.RLIMIT_AS)
+    try:
+        with open("/proc/self/statm", encoding="ascii") as fh:
+            now = int(fh.read().split()[0]) * resource.getpagesize()
+        resource.setrlimit(resource.RLIMIT_AS, (now + (1 << 30), hard))
+    except (OSError, ValueError):
+        now = None
+    import signal
+    import threading
+
+    class _TooLong(BaseException):
+        pass
+
+    def on_alarm(_sig, _frm):
+        raise _TooLong()
+    timed = threading.current_thread() is threading.main_thread()
+    if timed:
+        old_handler = signal.signal(signal.SIGALRM, on_alarm)
+        signal.setitimer(signal.ITIMER_REAL, 5.0)
+    try:
+        got = ota.load_fw(path)
+    except MemoryError:
+        return Oversized(b"MemoryError")
+    except _TooLong:
+        return Oversized(b"more than 5 s of work")
+    finally:
+        if timed:
+            signal.setitimer(signal.ITIMER_REAL, 0)
+            signal.signal(signal.SIGALRM, old_handler)
+        if now is not None:
+            resource.setrlimit(resource.RLIMIT_AS, (soft, hard))
+    if got is not None and len(got) > (1 << 22):
+        return Oversized(f"{len(got)} bytes".encode())
+    return got
 
 
 def show_hex(data):
@@ -274,6 +314,22 @@ def make_session(rng, version, fws, extra_nodes=()):
         t, v, img, _ = fws[0]
         streams.append([(("L", f"{n};255;4;0;2;{pack_words(t, v, 0)}\n"), ("idle", n)),
                         (("L", f"{n};255;4;0;0;{pack_words(t, v, 0, 0, 0)}\n"), ("idle", n))])
+    # a late joiner: one more node is scheduled for an already loaded firmware — by a further update call with the
+    # same file — while the others are in the middle of their downloads; nobody's session may suffer
+    if rng.random() < 0.5:
+        k = rng.randrange(len(fws))
+        t, v, img, nids = fws[k]
+        j = next(x for x in range(150, 200) if x not in used)
+        used.add(j)
+        fws = list(fws)
+        fws[k] = (t, v, img, list(nids) + [j])
+        blocks = (len(img) // 128 + 1) * 8
+        late = [(("L", f"{j};255;0;0;17;{version}\n"), None), (("U", [j], t, v, bytes(img)), None),
+                (("L", f"{j};255;4;0;0;{pack_words(t, v, 0, 0, 0)}\n"), ("cfg", j, t, v))]
+        idx = list(range(blocks))
+        rng.shuffle(idx)
+        late += [(("L", f"{j};255;4;0;2;{pack_words(t, v, i)}\n"), ("blk", j, t, v, i)) for i in idx]
+        streams.append(late)
     # interleave the nodes' request streams, keeping each node's own order
     pos = [0] * len(streams)
     live = [i for i, s in enumerate(streams) if s]
@@ -729,6 +785,16 @@ def run(tier, seed, driver):
     try:
         for name, text, want, plain in hex_cases(tier, rng):
             got = real_load_fw(text, workdir)
+            if isinstance(got, Oversized):
+                oversized = res.histogram.get("load_fw:oversized", 0)
+                res.count("load_fw:oversized")
+                if oversized >= 6:
+                    break           # enough evidence; every further one costs the time cap
+                res.oracle_failures.append({
+                    "key": {"kind": "intel-hex-oversized", "what": name.split("/")[0]},
+                    "what": f"load_fw on a {name} file of {len(text)} characters produced {got.decode()}",
+                    "replay": {"op": "ihex", "text": text, "want": bytes(want or b"").hex()}})
+                continue
             add("load_fw:" + name.split("/")[0], "IHEXLOAD " + enc_str(text), "none" if got is None else "ok " + show_hex(got))
             res.count("load_fw:" + name.split("/")[0] + (":none" if got is None else ":ok"))
             if want is not None:
